@@ -232,6 +232,25 @@ pub fn run(ctx: &Ctx) {
         ctx.run.space(json!({"universe": "all curated inputs", "sets": inputs.len(), "settings": "Lambda<=3 incl. u and c; thresholds (1,1) and, with r, (2,2)", "settings_count": k3.len()}));
     }
     {
+        // every White_Space scalar and '#' (what verbose mode must escape) first in the pattern or first in a
+        // branch with a quantifier behind it: an unescaped one is skipped by the engine and the quantifier has
+        // nothing to repeat
+        let mut ws: Vec<char> = ctx.k.s.ranges().iter().flat_map(|r| (r.start() as u32..=r.end() as u32).filter_map(char::from_u32)).collect();
+        ws.push('#');
+        let cfgs = lattice_le(X, ALL_BITS, 2);
+        let shapes = |c: char| -> Vec<Vec<String>> {
+            vec![vec![c.to_string().repeat(3)], vec![c.to_string()], vec![format!("a{c}"), format!("a{c}{c}{c}{c}b"), "b".to_string()], vec![format!("{c}{c}a"), format!("{c}{c}{c}")], vec![format!("{c}a{c}a")]]
+        };
+        par_for(ws.len(), |i| {
+            for t in shapes(ws[i]) {
+                for c in &cfgs {
+                    valid_check(ctx, &t, c);
+                }
+            }
+        });
+        ctx.run.space(json!({"universe": "U_ws_units: every White_Space scalar and '#' as [ccc], [c], [ac, accccb, b], [cca, ccc], [caca]", "sets": ws.len() * 5, "settings": "x + Lambda<=2 incl. u and c", "settings_count": cfgs.len(), "cases": ws.len() * 5 * cfgs.len()}));
+    }
+    {
         // every pair of scalar kinds next to each other, and runs of consecutive code points (class ranges)
         let k1 = lattice_le(0, ALL_BITS, 1);
         let k2 = lattice_le(0, ALL_BITS, 2);
